@@ -73,7 +73,7 @@ def bout_up(v, x, y, ny):
     )
 
 
-def pins_obligations(ctx, eq, topo):
+def pins_obligations(ctx, eq, topo, sizes=None, segments=None):
     """T7: X-point corner pins sit at the radial edge of that X-point's own separatrix."""
     nis_pos = topo in ("ldn", "udn", "ldn_upper_outer_start", "udn_upper_outer_start")
     for nm, reg in eq.regions.items():
@@ -93,6 +93,24 @@ def pins_obligations(ctx, eq, topo):
         has_upper = any(reg.connections[k]["upper"] is not None for k in range(reg.nSegments))
         ctx.oblige(TRUE((lo == "X") == has_lower and (lo in ("X", "wall"))), "T9:%s: lower end is '%s' and %s a lower neighbour" % (nm, lo, "has" if has_lower else "has no"))
         ctx.oblige(TRUE((up == "X") == has_upper and (up in ("X", "wall"))), "T9:%s: upper end is '%s' and %s an upper neighbour" % (nm, up, "has" if has_upper else "has no"))
+    # T11: each region takes the poloidal cell count of the option named after it
+    if sizes is not None:
+        for nm, reg in eq.regions.items():
+            if nm.endswith("_divertor"):
+                want = sizes["ny_" + nm]
+            elif nm == "core":
+                want = sizes["ny_inner_sol"] + sizes["ny_outer_sol"]
+            elif nm in ("inner_core", "outer_core"):
+                want = sizes["ny_" + nm.replace("core", "sol")]
+            else:
+                continue
+            ctx.oblige(reg.ny_noguards == want, "T11:%s has the number of poloidal cells of the option named after it" % nm)
+    # T12: radial sizes of the core / SOL segments come from the options named after them
+    if sizes is not None and segments is not None:
+        want = {"core": "nx_core", "sol": "nx_sol", "inner_sol": "nx_sol_inner", "outer_sol": "nx_sol_outer", "near_sol": "nx_inter_sep"}
+        for nm, opt in want.items():
+            if nm in segments:
+                ctx.oblige(segments[nm]["nx"] == sizes[opt], "T12:segment %s has %s radial cells" % (nm, opt))
     # T10: a wall surface is attached exactly at wall ends, X-point pins exactly at X-point ends
     for nm, reg in eq.regions.items():
         lo, up = reg.kind.split(".")
@@ -114,7 +132,7 @@ def make_pins_run(topo):
     def run(ctx):
         eq, info = tk.build_equilibrium(ctx, topo)
         with spec_mode():
-            pins_obligations(ctx, eq, topo)
+            pins_obligations(ctx, eq, topo, info["sizes"], info["segments"])
         return eq
 
     return run
@@ -200,7 +218,7 @@ def make_run(topo):
                 gl = myg if c["lower"] is None else 0
                 gu = myg if c["upper"] is None else 0
                 ctx.oblige(box[rid][4] - box[rid][3] == eq.regions[nm].ny_noguards + gl + gu, "T3:region %d carries y_boundary_guards rows exactly at its targets" % rid)
-            pins_obligations(ctx, eq, topo)
+            pins_obligations(ctx, eq, topo, info["sizes"], info["segments"])
             # ---- T5 dy
             ctx.oblige(TRUE(nstmts >= 10), "topology block of writeGridfile found (%d statements)" % nstmts)
         return mesh
